@@ -186,12 +186,15 @@ package aspect_elimination
 //@ wire aspectEliminationAddedCriterion
 //@   property C01 C07 C20
 //@   json Weights=weights Params=params,omitempty
+//@   gotypes Weights=model.Weights Params=interface{}
 //@ wire AspectEliminationEvaluation
 //@   property C01 C12 C20
 //@   json NotSatisfiedThreshold=notSatisfiedThreshold ThresholdsIndex=thresholdsIndex
+//@   gotypes NotSatisfiedThreshold=model.Weights ThresholdsIndex=int
 //@ wire AspectEliminationHeuristicParams
 //@   property C01 C12 C20
 //@   json Function=function Params=params RandomSeed=randomSeed Weights=weights RandomAlternativesOrdering=randomAlternativesOrdering
+//@   gotypes Function=string Params=interface{} RandomSeed=int64 Weights=model.Weights RandomAlternativesOrdering=bool
 
 // ---- registered names (what a request must say to select this object; what error messages list)
 //@ func (*AspectEliminationBiasListener).Identifier
